@@ -462,7 +462,8 @@ class World (object):
           arg = OPS[r.op][1]
           key = "subtask-result:" + SHAPE_NAME[arg]
           if SHAPE_EXPECT[arg] == "exc" and r.style == "target" and r.sub_done:
-            key += ":Task(target)-caller"
+            # one defect whatever the sub-task's shape: the exception is thrown into the Task.run wrapper
+            key = "subtask-result:exception-never-reaches-a-Task(target)-caller"
           self.fail(key, "%s called a sub-task that %s and %s" % (r.name, SHAPE_NAME[arg],
                     "was never resumed" if r.sub_done else "the sub-task never finished"))
       else:
@@ -748,7 +749,7 @@ def _violation (rep, w, replay):
 
 
 def _inline_worker (item):
-  lo, step, dev = item
+  lo, step, dev, suite = item
   step *= _STRIDE
   t_cpu = time.process_time()
   rep = Report(PID, "model_checking")
@@ -776,6 +777,7 @@ def _inline_worker (item):
     gc.collect(); gc.enable()
     sys.stdout, sys.stderr = old
   rep.extra["programs_inline"] = n
+  rep.extra["executions: " + suite] = rep.evaluations
   rep.extra["cpu_ms_inline"] = int((time.process_time() - t_cpu) * 1000)
   return rep
 
@@ -794,7 +796,7 @@ def inline_suites (cfg):
   return [("2 entities, <=4 yields", OPS_QUICK, 2, 4, 2),
           ("2 entities, <=6 yields (every ordered pair of scripts of <=3 yields)", OPS_QUICK, 2, 6, 0),
           ("2 entities, <=4 yields, extended vocabulary", OPS_QUICK + OPS_EXTRA, 2, 4, 1),
-          ("3 entities, <=3 yields", OPS_QUICK, 3, 3, 2),
+          ("3 entities, <=3 yields", OPS_QUICK, 3, 3, 1),
           ("3 entities, <=4 yields", OPS_QUICK, 3, 4, 0)]
 
 
@@ -927,9 +929,10 @@ def threaded_configs (cfg):
   return [(HANDOFF, 3), (None, 2)]
 
 
-def run_threaded_part (cfg, rep):
+def run_threaded_part (cfg, rep, which=None):
   pts = {}
-  for funcs, bound in threaded_configs(cfg):
+  for ci, (funcs, bound) in enumerate(threaded_configs(cfg)):
+    if which is not None and ci != which: continue
     items = []
     firsts = list(pmap(_thr_first, [(pi, funcs) for pi in range(len(THR_PROGRAMS))], cfg.workers))
     for pi, kids, nchoice, npoints in sorted(firsts):
@@ -959,12 +962,15 @@ def run (cfg):
       _SPACE = ProgSpace(ops, nent, total)
       counts[name] = len(_SPACE)
       nchunks = max(1, cfg.workers * 8)
-      items = [(i, nchunks, dev) for i in range(nchunks)]
+      items = [(i, nchunks, dev, name) for i in range(nchunks)]
       for r in pmap(_inline_worker, items, cfg.workers, seed=cfg.seed):
         rep.merge(r)
   pts = {}
+  which = None
+  if only and only.startswith("threaded:"):    # debugging aid: one threaded configuration only
+    which = int(only.split(":")[1]); only = "threaded"
   if only in (None, "threaded"):
-    pts = run_threaded_part(cfg, rep)
+    pts = run_threaded_part(cfg, rep, which)
   rep.state_count = rep.evaluations
   for k in ("cpu_ms_inline", "cpu_ms_threaded"):
     if k in rep.extra: rep.extra[k.replace("cpu_ms", "cpu_s")] = round(rep.extra.pop(k) / 1000.0, 1)
